@@ -21,7 +21,10 @@ TIE_THEOREMS = ["Tie.Command.%s" % n for n in
                  "std_rows_traced", "dev_rows_traced", "inst_rows_traced")] + \
                ["Tie.Event.%s_%s_tie" % (f, sc) for f in ("ev", "evLight", "evOcc")
                 for sc in ("device", "deviceInstance", "deviceGroup", "instanceGroup", "inst")] + \
-               ["Tie.Special.specialParam_tie", "Tie.Special.specialNoParam_tie", "Tie.Special.special_rows_traced"]
+               ["Tie.Special.%s" % n for n in
+                ("specialParam_tie", "specialNoParam_tie", "shortSpecial_tie", "shortSpecialMask_tie",
+                 "initialiseAddr_tie", "initialiseBroadcastAddr_tie", "initialiseBroadcast_tie",
+                 "initialiseUnaddressed_tie", "special_rows_traced")]
 THEOREMS = ["tables_ok2", "decode_construct", "decode_construct_gen", "render_preserved", "no_shared_frame",
             "std_param_rejected", "std_arity_rejected", "destination_rejected", "wrong_kind_rejected",
             "byte_param_rejected", "slice_write_rejects", "std_accepted_is_legal", "dapc_accepted_is_legal",
